@@ -17,10 +17,12 @@ func init() {
 			"isReady's readiness verdict follows the licensed cells (C01.ready-table, shared)",
 			"a step whose own precondition fails is marked skipped and cannot reach the launch in that pass (C02.precond-skip)",
 			"after a failed execution every path to the worker's final labelling stores a status (failed/canceled/not-started) unless the step was already finished/canceled or the run was stopped (C02.fail-label)",
+			"after the executor's Run, Node.Execute returns and records that Run's result on every way the value is formed (C02.exec-error-reported)",
+			"the polling loop is left (loop test, break, return) only under finished(g) or the cancel flag, and finished(g) ranges over all nodes, passes over a node only when it is neither not-started nor running, and answers true only after the range is exhausted (C02.run-to-completion)",
 			"finished is stored only under status==running (C02.success-label); launch is gated and unique (C01.gate, C01.single-launch shared)",
 		},
 		NotDec: []string{
-			"liveness: steps not downstream of a blocker always run to completion",
+			"liveness proper (that the loop makes progress); decided is only that it cannot END while a node is not-started or running unless the run was stopped (C02.run-to-completion)",
 			"the canceled-vs-skipped labelling race the property itself leaves open; concrete DAG shapes and outcome scripts",
 		},
 		Assume: []string{"status accessors are recognised structurally (a method storing its argument into data.State.Status)"},
@@ -41,6 +43,8 @@ func runC02(e *Env) {
 	c02SuccessLabel(e, s)
 	c01Gate(e, s)
 	c01SingleLaunch(e, s)
+	cRunToCompletion(e, s, "C02.run-to-completion")
+	cExecErrorReported(e, s, "C02.exec-error-reported")
 }
 
 func c02MarkTable(e *Env, s *Sched) {
@@ -57,6 +61,7 @@ func c02MarkTable(e *Env, s *Sched) {
 		ev   ir.StoreEvent
 		k    int64
 		lits []ir.NLit
+		bind map[ssa.Value]ssa.Value
 	}
 	var cases []markCase
 	for _, ev := range s.events(e.inlinedSet(fn, nil)) {
@@ -69,7 +74,7 @@ func c02MarkTable(e *Env, s *Sched) {
 		}
 		if isConst {
 			for _, w := range e.waysTo(ev.Site) {
-				cases = append(cases, markCase{ev, k, w})
+				cases = append(cases, markCase{ev: ev, k: k, lits: w})
 			}
 			continue
 		}
@@ -85,41 +90,41 @@ func c02MarkTable(e *Env, s *Sched) {
 						split = false
 						break
 					}
-					cases = append(cases, markCase{ev, kv, a.Lits})
+					cases = append(cases, markCase{ev: ev, k: kv, lits: a.Lits})
 				}
 			}
 		}
 		// the mark read from a constant table (`block, ok := blocks[depStatus]; node.setStatus(block.status)`):
 		// one case per entry
 		if !split {
-			if lk, which, field, ents, ok := e.tableLookup(ir.Deep(ev.Val)); ok && which == 0 {
+			if lk, which, field, _, ok := e.tableLookup(ir.Deep(ev.Val)); ok && which == 0 {
 				split = true
-				for _, tc := range tableCases(lk, ents) {
-					if tc.Entry == nil {
-						continue // the miss: judged through the ok test below (infeasible under `ok`)
-					}
-					kv, isC := ir.ConstInt(tc.Value(field))
-					if tc.Value(field) == nil || !isC {
-						split = false
-						break
-					}
-					// this entry together with the conditions of the store; an `ok` test of
-					// the same lookup is satisfied by construction
-					var lits []ir.NLit
-					feasible := true
-					for _, l := range e.DCS(ev.Site) {
-						if l.Kind == "val" {
-							if lk2, w2, _, _, ok2 := e.tableLookup(l.V); ok2 && lk2 == lk && w2 == 1 {
-								if !l.Pol {
-									feasible = false
-								}
+				// every way of reaching the store, the lookup resolved entry by entry (an `ok`
+				// test, a test of a field, a call of an entry's function are all settled by the entry)
+				for _, way := range e.waysTo(ev.Site) {
+					// make sure the lookup is mentioned so that it is resolved even without an ok test
+					for _, ta := range e.expandTableFields(append(append([]ir.NLit{}, way...), ir.NLit{Kind: "cmp", Op: token.EQL, X: ev.Val, Y: ev.Val})) {
+						ent, has := ta.Entries[lk]
+						if !has || ent == nil {
+							continue // the miss: the zero value is stored; judged by the ok test (infeasible under `ok`)
+						}
+						v := ent.Val
+						if field != "" {
+							v = ent.Fields[field]
+						}
+						kv, isC := ir.ConstInt(v)
+						if v == nil || !isC {
+							split = false
+							break
+						}
+						var lits []ir.NLit
+						for _, l := range ta.Lits {
+							if l.Kind == "cmp" && l.X == ev.Val && l.Y == ev.Val {
 								continue
 							}
+							lits = append(lits, l)
 						}
-						lits = append(lits, l)
-					}
-					if feasible {
-						cases = append(cases, markCase{ev, kv, append(lits, tc.Lits...)})
+						cases = append(cases, markCase{ev: ev, k: kv, lits: lits, bind: ta.Bind})
 					}
 				}
 			}
@@ -132,12 +137,14 @@ func c02MarkTable(e *Env, s *Sched) {
 	var expanded []markCase
 	for _, mc := range cases {
 		for _, lits := range e.expandHelperCalls(mc.lits, 0) {
-			expanded = append(expanded, markCase{mc.ev, mc.k, lits})
+			expanded = append(expanded, markCase{ev: mc.ev, k: mc.k, lits: lits, bind: mc.bind})
 		}
 	}
-	for _, mc := range expanded {
+	judge := func(mc markCase) {
 		ev, k, lits := mc.ev, mc.k, mc.lits
 		pos := e.InstrPos(ev.Site)
+		undo := ir.SetOverride(mc.bind) // the parameters of an entry function stand for the call's arguments
+		defer undo()
 		var depRoot ssa.Value
 		isDepStatus := func(v ssa.Value) bool {
 			p, ok := e.pathThroughParams(v)
@@ -149,7 +156,7 @@ func c02MarkTable(e *Env, s *Sched) {
 		}
 		set := ir.Restrict(lits, isDepStatus, s.NS)
 		if len(set) == 0 {
-			continue // an infeasible way (contradictory tests of the dependency's status)
+			return // an infeasible way (contradictory tests of the dependency's status)
 		}
 		cons := "isReady: dependent:=" + s.name(k) + " when dependency ∈ {" + strings.Join(set.Names(s.NS), ",") + "}"
 		ok, why := true, ""
@@ -179,6 +186,9 @@ func c02MarkTable(e *Env, s *Sched) {
 			}
 		}
 		r.Check(ok, cons, pos, why, e.FactsStr("dominating conditions: ", lits))
+	}
+	for _, mc := range expanded {
+		judge(mc)
 	}
 }
 
